@@ -68,6 +68,12 @@ theorem sortOpts_sorted (l : List (Bytes × HVal)) : (sortOpts l).Pairwise (fun 
   | cons a r ih => exact insertOpt_sorted a _ ih
 
 
+theorem mem_sortOpts (l : List (Bytes × HVal)) (q : Bytes × HVal) : q ∈ sortOpts l ↔ q ∈ l := by
+  unfold sortOpts
+  induction l with
+  | nil => simp
+  | cons a r ih => rw [List.foldr_cons, insertOpt_keys_mem, ih, List.mem_cons]
+
 /-! ## `renderHeader` -/
 
 theorem toAscii_ofAscii (b : Bytes) : (Text.ofAscii b).toAscii = b := by
@@ -145,7 +151,8 @@ theorem renderHeader_shape (sec : SecId) (options : List (Bytes × Option HVal))
     (((sortOpts (options.filterMap (fun p => p.2.map (fun v => (p.1, v))))).map
         (fun p => (p.1, p.2.text.toAscii))).map (·.1)).Pairwise (· ≤ ·) ∧
     (∀ b ∈ h, b < 128) := by
-  unfold renderHeader at hr
+  replace hr := (renderHeader_ok sec options h hr).2
+  unfold renderBody presentOpts at hr
   dsimp only at hr
   generalize hsorted : sortOpts (options.filterMap (fun p => p.2.map (fun v => (p.1, v)))) = sorted at hr ⊢
   rw [intersperse_flatten_eq] at hr
@@ -201,6 +208,36 @@ theorem renderHeader_grammar (sec : SecId) (hs : sec.level ≤ 3) (options : Lis
   rw [hh]
   simp only [List.length_append, List.length_singleton, Nat.add_sub_cancel, List.take_left']
   exact Header.parseHeader_headerLine valid sec _ hg hv
+
+/-- what the value check of `_write_section_header` guarantees about an emitted header:
+every written value is made of option-value characters, and no `str` value is something a
+reader would turn into an integer -/
+theorem renderHeader_values_ok (sec : SecId) (options : List (Bytes × Option HVal)) (h : Bytes)
+    (hr : renderHeader sec options = .ok h) :
+    (∀ p ∈ (sortOpts (options.filterMap (fun p => p.2.map (fun v => (p.1, v))))).map
+            (fun p => (p.1, p.2.text.toAscii)), Header.valOk p.2 = true) ∧
+    (∀ k t, (k, some (HVal.str t)) ∈ options → Header.convert t.toAscii = .str t.toAscii) := by
+  constructor
+  · intro p hp
+    obtain ⟨q, hq, rfl⟩ := List.mem_map.mp hp
+    exact (valueRefused_false q.2
+      ((renderHeader_ok sec options h hr).1 q ((mem_sortOpts _ q).mp hq))).2
+  · intro k t hm
+    exact (valueRefused_str_false t (renderHeader_ok_value sec options h hr k (.str t) hm)).2.2
+
+/-- `renderHeader_grammar` with the hypothesis on the values discharged by the value check -/
+theorem renderHeader_grammar_auto (sec : SecId) (hs : sec.level ≤ 3) (options : List (Bytes × Option HVal))
+    (h : Bytes) (hr : renderHeader sec options = .ok h)
+    (hk : ∀ p ∈ (sortOpts (options.filterMap (fun p => p.2.map (fun v => (p.1, v))))).map
+            (fun p => (p.1, p.2.text.toAscii)), Header.keyOk p.1 = true)
+    (valid : List SecId) (hv : sec ∈ valid) :
+    Spec.GrammarOk sec ((sortOpts (options.filterMap (fun p => p.2.map (fun v => (p.1, v))))).map
+            (fun p => (p.1, p.2.text.toAscii))) ∧
+    Header.parseHeader valid (h.take (h.length - 1)) =
+      .ok ⟨sec, Spec.reported ((sortOpts (options.filterMap (fun p => p.2.map (fun v => (p.1, v))))).map
+            (fun p => (p.1, p.2.text.toAscii)))⟩ :=
+  renderHeader_grammar sec hs options h hr
+    (fun p hp => ⟨hk p hp, (renderHeader_values_ok sec options h hr).1 p hp⟩) valid hv
 
 /-! ## `newContent` -/
 
